@@ -4,6 +4,7 @@
 -/
 import Torf.Lemmas.Codec
 import Torf.Lemmas.RoundTripBack
+import Torf.Lemmas.RoundTripPy
 import Torf.Model.ReadStream
 namespace Torf.C05
 open Torf Torf.Bencode Torf.Codec Torf.ReadStream
@@ -191,12 +192,9 @@ theorem C05_read_dump_fixpoint (env : Env) (x : Bytes) (enc : List (Bytes × BVa
     ∃ bs, dump env t validate = .ok bs ∧ read env bs validate = .ok t :=
   ⟨x, C05_dump_read env x enc validate t hx hs hu hpieces hpriv hdate hinfo hr, hr⟩
 
-/-- **`read_stream(t.dump())` for an arbitrary exportable torrent `t`.**
-    Hypotheses: `t.metainfo` is a Python dict (`wf`), `dump()` returns `bs` (so `convert()` and
-    — if requested — `validate()` accepted), `bs` is within `MAX_TORRENT_FILE_SIZE`, `info` is a
-    dict, and the *written document* `enc` (`bs` is canonical by `C06_canonical`; `hparse` names
-    its parse) has `pieces` a byte string, `private` 0/1 and a representable `creation date`;
-    with `validate=True` the oracle accepts the re-read metainfo.  Conclusion: reading succeeds
+/-- `C05_read_dump` with the export hypotheses stated on the *written document* `enc`
+    (`bs` is canonical by `C06_canonical`; `hparse` names its parse): `pieces` a byte string,
+    `private` 0/1, representable `creation date`.  Conclusion: reading succeeds
     with some `t'` such that
     * `t'.dump() == bs` (byte-identical file again),
     * `t'` and `t` have the same canonical conversion: `encode_dict(t') = norm (encode_dict(t))`
@@ -207,7 +205,7 @@ theorem C05_read_dump_fixpoint (env : Env) (x : Bytes) (enc : List (Bytes × BVa
     * the bytes hashed for the infohash, and hence the infohash for every hash function, are the
       same (whenever `validate()` accepts `t'`, which `infohash` always calls).
     For `t` that was itself read from a file, `t' = t` exactly (`C05_read_dump_fixpoint`). -/
-theorem C05_read_dump (env : Env) (t : List (PyVal × PyVal)) (validate : Bool) (bs : Bytes)
+theorem C05_read_dump_doc (env : Env) (t : List (PyVal × PyVal)) (validate : Bool) (bs : Bytes)
     (enc : List (Bytes × BVal))
     (hw : wf (.dict (ensureInfo t)) = true)
     (hd : dump env t validate = .ok bs)
@@ -283,5 +281,85 @@ theorem C05_read_dump (env : Env) (t : List (PyVal × PyVal)) (validate : Bool) 
     · rename_i ib hib'
       rw [hib ib hib' hvt]; exact hh
     · exact absurd hh (by simp)
+
+/-- **`read_stream(t.dump())` for an arbitrary exportable torrent `t`** (any value types the
+    converter accepts, any extra keys, any insertion order).
+    Hypotheses, all on the torrent itself: `t.metainfo` is a Python dict (`wf`: distinct `str`
+    keys); `dump()` returns `bs` (so `convert()` and — if requested — `validate()` accepted);
+    `bs` is within `MAX_TORRENT_FILE_SIZE`; `info` is a dict; `info['pieces']` (if present) is
+    written as a byte string; `info['private']` (if present) is written as 0/1;
+    `creation date` (if present) is written as an integer that `fromtimestamp`/`timestamp` give
+    back; with `validate=True` the `validate()` oracle accepts the re-read metainfo.
+    Conclusion: `read_stream(bs)` succeeds with some `t'` such that
+    * `t'.dump() == bs` (byte-identical file again),
+    * `t'` and `t` have the same canonical conversion: `encode_dict(t') = norm (encode_dict(t))`
+      (`norm` only sorts dictionaries by raw key) — i.e. `t' = t` up to exactly what `convert()`
+      erases: tuple→list, bool→0/1, float→int, datetime→int (and back to `datetime` for the
+      top-level `creation date`), `private`→bool, bytes that are valid UTF-8→str, dict insertion
+      order (→ raw key order, `pieces` last in `info`), absent `info`→`{}`,
+    * the bytes hashed for the infohash, and hence the infohash for every hash function, are the
+      same (whenever `validate()` accepts `t'`, which `infohash` always calls).
+    For `t` that was itself read from a file, `t' = t` exactly (`C05_read_dump_fixpoint`). -/
+theorem C05_read_dump (env : Env) (t : List (PyVal × PyVal)) (validate : Bool) (bs : Bytes)
+    (hw : wf (.dict (ensureInfo t)) = true)
+    (hd : dump env t validate = .ok bs)
+    (hsize : bs.length ≤ env.maxSize)
+    (hinfo : ∃ ikvs, PyVal.lookupStr "info" (ensureInfo t) = some (.dict ikvs))
+    (hpieces : PyPiecesOk t) (hpriv : PyPrivateOk t) (hdate : PyDateOk env t)
+    (hval : validate = true → ∀ t', read env bs false = .ok t' → env.validate (.dict t') = true) :
+    ∃ t', read env bs validate = .ok t' ∧ dump env t' validate = .ok bs ∧
+      (∃ u, encodeDict (ensureInfo t) = .ok u ∧ encodeDict t' = .ok (norm u)) ∧
+      (∀ ib, infoBytes env t = .ok ib → env.validate (.dict t') = true →
+        infoBytes env t' = .ok ib) ∧
+      (∀ H h, infohash env H t = .ok h → env.validate (.dict t') = true →
+        infohash env H t' = .ok h) := by
+  obtain ⟨ukvs, hu, hps, _⟩ := dump_parse hw hd
+  obtain ⟨ikvs, hli⟩ := hinfo
+  simp only [norm] at hps
+  exact C05_read_dump_doc env t validate bs _ hw hd hsize ⟨ikvs, hli⟩ hps
+    (piecesOk_of_py hw hu hli hpieces) (privateOk_of_py hw hu hli hpriv)
+    (dateOk_of_py hw hu hdate) hval
+
+/-- a torrent as a program builds it: insertion order not sorted, tuple, bool `private`,
+    float, `datetime` creation date, non-UTF-8 `pieces`, a multi-byte key -/
+def pyT : List (PyVal × PyVal) :=
+  [(.str "é", .tuple [.bool true, .float (.fin 1 false false)]),
+   (.str "info", .dict [(.str "pieces", .bytes [255, 254]), (.str "private", .bool true),
+                        (.str "name", .str "a")]),
+   (.str "creation date", .datetime (some 5))]
+
+/-- non-vacuity of `C05_read_dump`: `pyT` satisfies every hypothesis (with `validate=True`) -/
+example : wf (.dict (ensureInfo pyT)) = true ∧
+    (∃ bs, dump rtEnv pyT true = .ok bs ∧ bs.length ≤ rtEnv.maxSize) ∧
+    (∃ ikvs, PyVal.lookupStr "info" (ensureInfo pyT) = some (.dict ikvs)) ∧
+    PyPiecesOk pyT ∧ PyPrivateOk pyT ∧ PyDateOk rtEnv pyT := by
+  have hi : PyVal.lookupStr "info" (ensureInfo pyT) = some (.dict
+      [(.str "pieces", .bytes [255, 254]), (.str "private", .bool true), (.str "name", .str "a")]) := by
+    rfl
+  refine ⟨by decide, ?_, ⟨_, hi⟩, ?_, ?_, ?_⟩
+  · obtain ⟨bs, hbs⟩ := exists_ok_of_toBool (x := dump rtEnv pyT true) (by decide +kernel)
+    refine ⟨bs, hbs, ?_⟩
+    have : ((dump rtEnv pyT true).toOption.getD []).length ≤ rtEnv.maxSize := by decide +kernel
+    simpa [hbs, Except.toOption] using this
+  · intro ikvs m h1 h2
+    rw [hi] at h1
+    simp only [Option.some.injEq, PyVal.dict.injEq] at h1
+    subst h1
+    have : PyVal.lookupStr "pieces" [(PyVal.str "pieces", PyVal.bytes [255, 254]),
+      (.str "private", .bool true), (.str "name", .str "a")] = some (.bytes [255, 254]) := by rfl
+    rw [this] at h2
+    exact ⟨[255, 254], by rw [← Option.some.inj h2]; rfl⟩
+  · intro ikvs m h1 h2
+    rw [hi] at h1
+    simp only [Option.some.injEq, PyVal.dict.injEq] at h1
+    subst h1
+    have : PyVal.lookupStr "private" [(PyVal.str "pieces", PyVal.bytes [255, 254]),
+      (.str "private", .bool true), (.str "name", .str "a")] = some (.bool true) := by rfl
+    rw [this] at h2
+    exact Or.inr (by rw [← Option.some.inj h2]; rfl)
+  · intro m h
+    have : PyVal.lookupStr "creation date" (ensureInfo pyT) = some (.datetime (some 5)) := by rfl
+    rw [this] at h
+    exact ⟨5, by rw [← Option.some.inj h]; rfl, rfl⟩
 
 end Torf.C05
